@@ -1,7 +1,7 @@
 (* C10/Proofs.v — the host trie-root functions return the spec root of the map their input denotes. *)
 From Common Require Import Bytes.
 From Trie Require Import Nibbles Node Encode Model Spec NibblesProofs Sem InsertProofs DeleteProofs BuildProofs MapProofs.
-From Scale Require Import Compact CompactProofs.
+From C10 Require Import ScaleCompact ScaleCompactProofs.
 From C10 Require Import Model.
 From Coq Require Import Lia ZifyN ZifyNat.
 Local Open Scope N_scope.
@@ -16,17 +16,66 @@ Proof.
   apply G, Rep_empty.
 Qed.
 
-Theorem host_root_spec H version data : host_root H version data = spec_host_root H version data.
+(* the Go decoder agrees with the specification decoder wherever the latter succeeds *)
+Lemma pad_zero_0 b : pad_zero b 0 = b.
+Proof. unfold pad_zero. simpl. apply app_nil_r. Qed.
+Lemma dec_bytes_go_agrees d x r : dec_bytes d = Some (x, r) -> dec_bytes_go d = Some (x, 0, r).
 Proof.
-  unfold host_root, spec_host_root. destruct (parse_version version); auto.
-  destruct (dec_entries data); auto. now rewrite layout_root_spec.
+  unfold dec_bytes, dec_bytes_go. destruct (compact_decode d) as [[n r0]|]; [|discriminate].
+  destruct (N.ltb_spec (N.of_nat (length r0)) n) as [L|L]; [discriminate|].
+  destruct (N.eqb_spec n 0) as [->|Z].
+  - unfold take. simpl. intros E; inversion E; subst. reflexivity.
+  - destruct r0 as [|b r0]; [simpl in L; lia|]. intros ->. reflexivity.
 Qed.
-Theorem host_ordered_root_spec H version data :
+Lemma dec_pairs_go_agrees n : forall d es, dec_pairs n d = Some es -> dec_pairs_go n d = Some es.
+Proof.
+  induction n as [|n IH]; intros d es; simpl; auto.
+  destruct (dec_bytes d) as [[k r]|] eqn:E1; [|discriminate]. rewrite (dec_bytes_go_agrees _ _ _ E1).
+  destruct (dec_bytes r) as [[v r']|] eqn:E2; [|discriminate]. rewrite (dec_bytes_go_agrees _ _ _ E2).
+  destruct (dec_pairs n r') as [l|] eqn:E3; [|discriminate]. rewrite (IH _ _ E3).
+  now rewrite !pad_zero_0.
+Qed.
+Lemma dec_entries_go_agrees d es : dec_entries d = Some es -> dec_entries_go d = Some es.
+Proof.
+  unfold dec_entries, dec_entries_go. destruct (compact_decode d) as [[n r]|]; [|discriminate].
+  destruct (N.of_nat (length r) <? 2 * n); [discriminate|]. apply dec_pairs_go_agrees.
+Qed.
+Lemma dec_vals_go_agrees n : forall d vs, dec_vals n d = Some vs -> dec_vals_go n d = Some vs.
+Proof.
+  induction n as [|n IH]; intros d vs; simpl; auto.
+  destruct (dec_bytes d) as [[v r]|] eqn:E1; [|discriminate]. rewrite (dec_bytes_go_agrees _ _ _ E1).
+  destruct (dec_vals n r) as [l|] eqn:E3; [|discriminate]. rewrite (IH _ _ E3). now rewrite pad_zero_0.
+Qed.
+Lemma dec_values_go_agrees d vs : dec_values d = Some vs -> dec_values_go d = Some vs.
+Proof.
+  unfold dec_values, dec_values_go. destruct (compact_decode d) as [[n r]|]; [|discriminate].
+  destruct (N.of_nat (length r) <? n); [discriminate|]. apply dec_vals_go_agrees.
+Qed.
+
+Theorem host_root_spec H version data : guard_entries_overrun data = false ->
+  host_root H version data = spec_host_root H version data.
+Proof.
+  unfold host_root, spec_host_root, guard_entries_overrun. intros G. destruct (parse_version version); auto.
+  destruct (dec_entries data) as [es|] eqn:E.
+  - rewrite (dec_entries_go_agrees _ _ E). now rewrite layout_root_spec.
+  - destruct (dec_entries_go data); [discriminate|reflexivity].
+Qed.
+Theorem host_ordered_root_spec H version data : guard_values_overrun data = false ->
   host_ordered_root H version data = spec_host_ordered_root H version data.
 Proof.
-  unfold host_ordered_root, spec_host_ordered_root. destruct (parse_version version); auto.
-  destruct (dec_values data); auto. now rewrite layout_root_spec.
+  unfold host_ordered_root, spec_host_ordered_root, guard_values_overrun. intros G. destruct (parse_version version); auto.
+  destruct (dec_values data) as [vs|] eqn:E.
+  - rewrite (dec_values_go_agrees _ _ E). now rewrite layout_root_spec.
+  - destruct (dec_values_go data); [discriminate|reflexivity].
 Qed.
+
+(* inside the guard: a truncated final value is zero-filled and a root is returned *)
+Definition w_overrun : list byte := map n2b [4; 4; 1; 8; 2].
+Lemma overrun_refuted H : host_root H 0 w_overrun <> spec_host_root H 0 w_overrun.
+Proof. vm_compute. discriminate. Qed.
+Definition w_overrun_ordered : list byte := map n2b [4; 8; 2].
+Lemma overrun_ordered_refuted H : host_ordered_root H 0 w_overrun_ordered <> spec_host_ordered_root H 0 w_overrun_ordered.
+Proof. vm_compute. discriminate. Qed.
 
 Lemma parse_version_spec v : v < 256 ->
   parse_version v = if v =? 0 then Some V0 else if v =? 1 then Some V1 else None.
@@ -39,10 +88,16 @@ Proof.
   destruct (N.eqb_spec v 0); [lia|]. destruct (N.eqb_spec v 1); [lia|]. auto.
 Qed.
 Lemma undecodable_fails H v data :
-  (dec_entries data = None -> host_root H v data = None) /\
-  (dec_values data = None -> host_ordered_root H v data = None).
+  (dec_entries_go data = None -> host_root H v data = None) /\
+  (dec_values_go data = None -> host_ordered_root H v data = None) /\
+  (guard_entries_overrun data = false -> dec_entries data = None -> host_root H v data = None) /\
+  (guard_values_overrun data = false -> dec_values data = None -> host_ordered_root H v data = None).
 Proof.
-  unfold host_root, host_ordered_root. split; intros ->; destruct (parse_version v); reflexivity.
+  unfold host_root, host_ordered_root, guard_entries_overrun, guard_values_overrun. repeat split.
+  - intros ->. destruct (parse_version v); reflexivity.
+  - intros ->. destruct (parse_version v); reflexivity.
+  - intros G E. rewrite E in G. destruct (dec_entries_go data); [discriminate|]. destruct (parse_version v); reflexivity.
+  - intros G E. rewrite E in G. destruct (dec_values_go data); [discriminate|]. destruct (parse_version v); reflexivity.
 Qed.
 
 (* ---- the decoder accepts exactly the SCALE encodings: round trip ---- *)
